@@ -24,6 +24,13 @@ def templates(n, m='m2'):
     out.append(('nested-local', doc(P('0'), {'tag': 'x', 'define': [['local', n, py('2')]], 'children': [
         P('1'), {'tag': 'y', 'define': [['local', n, py('12')]], 'children': [P('2')]}, P('3')]}, P('4')),
         [[n, 'maybe3', 0]]))
+    # the same clause text on nested elements (the generated save/restore variables must still be distinct)
+    out.append(('nested-identical-define', doc(P('0'), {'tag': 'x', 'define': [['local', n, py('2')]], 'children': [
+        P('1'), {'tag': 'y', 'define': [['local', n, py('2')]], 'children': [P('2')]}, P('3')]}, P('4')),
+        [[n, 'maybe3', 0]]))
+    out.append(('nested-identical-repeat', doc(P('0'), {'tag': 'x', 'indent': 2, 'repeat': [n, py('seq')], 'children': [
+        P('1'), {'tag': 'y', 'indent': 4, 'repeat': [n, py('seq')], 'children': [P('2')]}, P('3')]}, P('4')),
+        [[n, 'maybe3', 0], ['seq', 'lenN', 1]]))
     out.append(('repeat', doc(P('0'), {'tag': 'x', 'indent': 2, 'repeat': [n, py('seq')], 'children': [P('1')]},
                               P('2')),
                 [[n, 'maybe3', 0], ['seq', 'lenN', 1]]))
@@ -99,7 +106,7 @@ def plan(tier, seed):
     names = POOL if not quick else POOL[:6]
     for n in names:
         for label, prog, vars_ in templates(n):
-            if quick and n not in ('a', 'len') and label not in ('nested-local', 'repeat', 'global'):
+            if quick and n not in ('a', 'len') and label not in ('nested-local', 'repeat', 'global', 'nested-identical-define'):
                 continue
             jobs.append({'prog': prog, 'vars': vars_, 'label': '%s:%s' % (n, label)})
     mut = {'prog': templates('a')[0][1], 'vars': templates('a')[0][2]}
@@ -133,7 +140,7 @@ def plan(tier, seed):
                    'chameleon.utils:Scope.__iter__', 'chameleon.utils:Scope.copy', 'chameleon.utils:Scope.set_global',
                    'chameleon.utils:Scope.get_name', 'chameleon.compiler:Compiler.visit_UseInternalMacro',
                    'chameleon.compiler:Compiler.visit_UseExternalMacro'],
-        bounds=('%d scoping templates (7 nesting patterns of define local/global, repeat, condition; depth <= 3) over '
+        bounds=('%d scoping templates (9 nesting patterns of define local/global, repeat, condition, incl. textually identical clauses on nested elements; depth <= 3) over '
                 'the name pool %s with the name initially unbound / None / 5, define values int, repeat length 0..3 or '
                 'None; Scope: all sequences of %s operations (local set / global set / delete / copy) on a root, its copy '
                 'and the copy of the copy, keys from a 2-name pool, values unbounded ints; reserved-name predicate on %d '
